@@ -220,10 +220,17 @@ def check_inheritance(ctx):
     f = ix.func(f"{EL}:TTMLElement.ParsingContext.{meth}")
     ctx.unit(f.module)
     ok = False
+    from ..rules import match as _m
     for st in own_nodes(f.node):
       if isinstance(st, ast.Assign) and unparse(st.targets[0]) == f"self.{attr}" and isinstance(st.value, ast.IfExp):
         v = st.value
-        ok = unparse(v.test).endswith("is not None") and unparse(v.body) in unparse(v.test) and unparse(v.orelse) == f"parent_ctx.{attr}"
+        own, par_ = (v.body, v.orelse) if unparse(v.orelse).endswith(f"parent_ctx.{attr}") else (v.orelse, v.body)
+        isnone = _m.is_none_test(v.test, lambda e: unparse(e) == unparse(own))
+        # own value is used on the not-None side, the parent's on the None side
+        ok = isnone is not None and unparse(par_) == f"parent_ctx.{attr}" and ((isnone is False and own is v.body) or (isnone is True and own is v.orelse))
+        # and the own value really is the element's attribute
+        defs = _m.local_defs(f.node).get(unparse(own), [])
+        ok = ok and len(defs) == 1 and ext in unparse(defs[0])
     ctx.check(ok, "INH", f"{f.qualname}|own value else the parent's", ctx.where(f.module, f.node), f"self.{attr} = own if own is not None else parent_ctx.{attr}",
               f"xml:{attr} is no longer 'the element's own value, else the parent's'")
 
